@@ -15,8 +15,10 @@
 (*   AddCashFlow(a)   S.AddCashFlow(TermText(a), eqn = a.eqn if a.he else None,        *)
 (*                                  is_income = a.inc)                                 *)
 (* An action is a record [op, s1, br, s2, body, he, eqn, inc, who] (IsAct).  A flow    *)
-(* term is a body (flow name A, B, the products A*B, B*A or the quotients A/B, B/A:    *)
-(* two-factor terms are like terms only when spelled identically, A/B is not B/A)      *)
+(* term is a body (flow name A, B, the products A*B, B*A, the quotients A/B, B/A, or a *)
+(* name with a numeric factor in either position 2*A, A*2, A/2, 2/A: two-factor terms   *)
+(* are like terms only when spelled identically, A/B is not B/A; the sign / bracket     *)
+(* spelling applies to the whole two-factor term: -2*A registers minus two A)           *)
 (* with a sign / bracket                                                                *)
 (* spelling s1 ( s2 body ): +A, -A, (-A), -(A), -(-A) ...  A defining expression is    *)
 (* only supplied (he) for single-name flows.                                          *)
@@ -34,7 +36,7 @@ CONSTANTS
     MaxLen          \* bound on the length of a history
 
 FlowNames == {"A", "B"}
-Bodies    == {"A", "B", "A*B", "B*A", "A/B", "B/A"}
+Bodies    == {"A", "B", "A*B", "B*A", "A/B", "B/A", "2*A", "A*2", "A/2", "2/A"}
 (* Texts of right-hand sides of a flow variable.  The library's placeholder spellings    *)
 (* '' and '0.0' are "empty / identically zero": AddCashFlow(term, eqn) may replace them.   *)
 (* Everything else is an existing definition and is never overwritten - whatever its      *)
@@ -75,19 +77,22 @@ TermText(a) == a.s1 \o (IF a.br THEN "(" \o a.s2 \o a.body \o ")" ELSE a.body)
 
 ----------------------------------------------------------------------------
 (* valuations.  Quotient flows make ledger values rational, so every ledger value is    *)
-(* taken times the fixed integer v.K (a common denominator): Den.. below are K-fold       *)
-(* values and exact integers.  With A = +-16^3, B = 16, K = 16^2 the K-fold values of      *)
-(*    B/A, B, A/B, A, A*B (= B*A), LAG_F   are   +-1, 16^3, +-16^4, +-16^5, +-16^6, +-16^7 *)
-(* i.e. distinct powers of 16.  Hence two ledgers whose coefficients differ by less than   *)
-(* 16 and that differ at all (A*B and B*A counted together: they are the same flow value)  *)
-(* differ in value under each valuation; in particular A/B and B/A are told apart.         *)
-(* Everything stays below 2^31 for histories of length < 7.                                *)
-Vals == << [A |-> 4096,  B |-> 16, L |-> 1048576,  K |-> 256, Z |-> 3,  W |-> 8],
-           [A |-> -4096, B |-> 16, L |-> -1048576, K |-> 256, Z |-> -4, W |-> -6] >>
+(* taken times the fixed integer v.K (a common denominator of all flow-term values):       *)
+(* Den.. below are K-fold values and exact integers (small: everything stays far below     *)
+(* 2^31).  Separation (verified by exhaustive enumeration, harness/checks/c06.py           *)
+(* check_separation): let d be the difference of the coefficient vectors of two ledgers    *)
+(* over the ten bodies and LAG_F, with sum |d_i| <= 10.  Then the two ledgers have the same *)
+(* value under BOTH valuations only if they are the same flow value identically (A*B with  *)
+(* B*A; A, 2*A, A*2, A/2 combined with weights 1, 2, 2, 1/2).  In particular A/B, B/A, 2/A, *)
+(* A/2 are all told apart, and a lost or flipped sign on any term is seen.                  *)
+Vals == << [A |-> 12,  B |-> -5, L |-> 1009,  K |-> 60, Z |-> 3,  W |-> 8],
+           [A |-> -15, B |-> 4,  L |-> -1013, K |-> 60, Z |-> -4, W |-> -6] >>
 
 ASSUME \A i \in 1..2 : LET v == Vals[i] IN          \* the quotients are exact
           /\ ((v.K * v.A) \div v.B) * v.B = v.K * v.A
           /\ ((v.K * v.B) \div v.A) * v.A = v.K * v.B
+          /\ ((v.K * v.A) \div 2) * 2 = v.K * v.A
+          /\ ((v.K * 2) \div v.A) * v.A = v.K * 2
 
 DenBody(b, v) ==            \* K-fold value of a flow term
     CASE b = "A"   -> v.K * v.A
@@ -96,6 +101,10 @@ DenBody(b, v) ==            \* K-fold value of a flow term
       [] b = "B*A" -> v.K * v.B * v.A
       [] b = "A/B" -> (v.K * v.A) \div v.B
       [] b = "B/A" -> (v.K * v.B) \div v.A
+      [] b = "2*A" -> v.K * 2 * v.A
+      [] b = "A*2" -> v.K * v.A * 2
+      [] b = "A/2" -> (v.K * v.A) \div 2
+      [] b = "2/A" -> (v.K * 2) \div v.A
 DenLag(v) == v.K * v.L
 
 DenDef(d, v) ==             \* 4-fold value of a definition text (exact integers)
